@@ -774,6 +774,12 @@ fn account_schedule(rep: &mut RunReport, info: &ExecInfo, pool: Option<usize>) {
         Some(_) => {
             rep.count("sched.pool", 1);
             rep.count("sched.segments", info.segs);
+            if info.segs == 0 {
+                // the fan-out did not go through the simulated executor: the
+                // seam was bypassed (reported in the evidence and as a
+                // WARNING line by the driver)
+                rep.count("other.pool_execution_bypassed_the_executor_seam", 1);
+            }
             if info.segs >= 2 {
                 rep.count("fault.split_fresh_worker_state", info.segs - 1);
                 rep.sigs.push(info.sched);
